@@ -565,7 +565,7 @@ func (s *configurationStore) store(ctx context.Context, store _map.Map[string, *
 		} else if _, ok := prunedValues[pv.Path]; !ok {
 			transaction.Remove(pv.Path, _map.IfVersion(entry.Version))
 		} else if pv.Index != entry.Value.Index || pv.Deleted != entry.Value.Deleted || !bytes.Equal(pv.Value.Bytes, entry.Value.Value.Bytes) ||
-			pv.Value.Type != entry.Value.Value.Type {
+			pv.Value.Type != entry.Value.Value.Type || !equalTypeOpts(pv.Value.TypeOpts, entry.Value.Value.TypeOpts) {
 			// the v3 controllers do not stamp path values with a transaction index: compare the value itself too
 			transaction.Update(pv.Path, &pv, _map.IfVersion(entry.Version))
 		}
@@ -578,6 +578,20 @@ func (s *configurationStore) store(ctx context.Context, store _map.Map[string, *
 		return err
 	}
 	return nil
+}
+
+// equalTypeOpts compares the type options of two values: they carry the sign and width of integers and the precision
+// of decimals, so two different values can have the same bytes and type
+func equalTypeOpts(a, b []int32) bool {
+	if len(a) != len(b) {
+		return false
+	}
+	for i := range a {
+		if a[i] != b[i] {
+			return false
+		}
+	}
+	return true
 }
 
 func (s *configurationStore) getTarget(
